@@ -224,6 +224,14 @@ def pool():
     global _POOL
     if _POOL is None:
         n = min(16, os.cpu_count() or 4)
+        # pyp0f and every Scapy layer are loaded ONCE, here, before the workers are forked: no worker ever imports them under
+        # its per-op watchdog (on a cold machine 16 concurrent imports of scapy.all took longer than an op's work budget, and a
+        # Hang raised inside Scapy's layer loader is swallowed there); impl.answer() also loads them before arming its timers
+        try:
+            from . import impl
+            impl.P()
+        except Exception:      # a working tree that does not import: every op reports it
+            pass
         _POOL = mp.get_context("fork").Pool(n, initializer=_worker_init)
     return _POOL
 
